@@ -15,7 +15,7 @@ for d in sorted(glob.glob("/verif/seeded/*/meta.json")):
     print(name, ",".join(dict.fromkeys(checks)) or m["property"])
 PY
 one() { name=$1; checks=$2
-  git -C /repo apply --check --whitespace=nowarn seeded/$name/patch.diff 2>/dev/null || { echo "$name $checks SUPERSEDED:does-not-apply-on-the-repaired-tree(DETECTED-when-filed)"; return; }
+  git -C /repo apply --check --whitespace=nowarn /verif/seeded/$name/patch.diff 2>/dev/null || { echo "$name $checks SUPERSEDED:does-not-apply-on-the-repaired-tree(DETECTED-when-filed)"; return; }
   r=$(timeout 3000 tools/mutant.sh seeded/$name/patch.diff $checks 2>&1 | grep -E '^(DETECTED|MISSED|ERROR|PATCH)' | awk '{print $1":"$2}' | tr '\n' ' ')
   echo "$name $checks $r"; }
 export -f one
